@@ -132,6 +132,61 @@ pub fn entry_point(s: &GenStream, ep: &str, acc: Option<&mut Acc>) -> Result<(),
             if r.code != 1 || r.out != s.plain || r.consumed != data.len() || r.calls != 1 {
                 return Err(format!("inflate() single Finish: code {} out {}/{} consumed {}/{}", r.code, r.out.len(), n, r.consumed, data.len()));
             }
+            // j calls with flush None and `room` bytes of output each (the whole input on offer), then Finish
+            // with ample room until the stream ends: the switch to Finish after exact fractions and
+            // multiples of the 32 KiB window have been delivered
+            for (room, j) in [(16384usize, 2usize), (32768, 1), (16384, 4), (8192, 4), (32768, 2), (1, 3)] {
+                let mut st = miniz_oxide::inflate::stream::InflateState::new_boxed(fmt);
+                let mut out: Vec<u8> = vec![];
+                let mut ip = 0;
+                let mut buf = vec![0u8; room];
+                let mut code = 0;
+                for _ in 0..j {
+                    let r = miniz_oxide::inflate::stream::inflate(&mut st, &data[ip..], &mut buf, MZFlush::None);
+                    ip += r.bytes_consumed;
+                    out.extend_from_slice(&buf[..r.bytes_written]);
+                    code = mzres_code(&r.status);
+                    if code != 0 {
+                        break;
+                    }
+                }
+                if code == 0 {
+                    let r = inflate_loop_from(&mut st, data, ip, usize::MAX, n + 64, MZFlush::Finish, out);
+                    code = r.code;
+                    out = r.out;
+                    ip = r.consumed;
+                }
+                if code != 1 || out != s.plain || ip != data.len() {
+                    return Err(format!("inflate() {} x None with {} bytes of room, then Finish: code {} out {}/{} consumed {}/{}", j, room, code, out.len(), n, ip, data.len()));
+                }
+            }
+            Ok(())
+        }
+        "E7-reused" => {
+            // the same decoder object, used before (complete other-format stream / abandoned / failed), then init()
+            for kind in 0..REUSE_KINDS.len() {
+                for cuts in [vec![], vec![data.len() / 2], (1..data.len().min(300)).collect::<Vec<_>>()] {
+                    let r = run_cuts_with(data, Mode::Flat, n + 8, zf, &cuts, false, 0x5c, |d| apply_reuse_history(d, kind, s.zlib));
+                    expect(r.status, &r.out, r.consumed, &format!("flat, decoder reused {}", REUSE_KINDS[kind]))?;
+                }
+                let fmt = if s.zlib { DataFormat::Zlib } else { DataFormat::Raw };
+                for reset_kind in 0..2 {
+                    let (prev, pflags) = reuse_history_bytes(kind, s.zlib);
+                    let pfmt = if pflags & F_ZLIB != 0 { DataFormat::Zlib } else { DataFormat::Raw };
+                    let mut st = miniz_oxide::inflate::stream::InflateState::new_boxed(pfmt);
+                    let mut scratch = vec![0u8; 4096];
+                    let _ = miniz_oxide::inflate::stream::inflate(&mut st, &prev, &mut scratch, MZFlush::None);
+                    if reset_kind == 0 || pfmt != fmt {
+                        st.reset(fmt);
+                    } else {
+                        st.reset_as(miniz_oxide::inflate::stream::MinReset);
+                    }
+                    let r = inflate_loop_from(&mut st, data, 0, 4096, n + 64, MZFlush::None, Vec::new());
+                    if r.code != 1 || r.out != s.plain || r.consumed != data.len() {
+                        return Err(format!("inflate() on a state reused {} ({}): code {} out {}/{} consumed {}/{}", REUSE_KINDS[kind], if reset_kind == 0 { "reset" } else { "MinReset" }, r.code, r.out.len(), n, r.consumed, data.len()));
+                    }
+                }
+            }
             Ok(())
         }
         "E6-bytewise" => {
@@ -159,7 +214,7 @@ pub fn entry_point(s: &GenStream, ep: &str, acc: Option<&mut Acc>) -> Result<(),
     }
 }
 
-pub const ENTRY_POINTS: &[&str] = &["E1-to_vec", "E2-flat", "E3-ring32k", "E4-slice-iter", "E5-inflate", "E6-bytewise"];
+pub const ENTRY_POINTS: &[&str] = &["E1-to_vec", "E2-flat", "E3-ring32k", "E4-slice-iter", "E5-inflate", "E6-bytewise", "E7-reused"];
 
 fn rp(s: &GenStream, ep: &str) -> Value {
     if s.bytes.len() <= 4096 {
